@@ -34,6 +34,12 @@ def run(ctx, model_ok):
         kinds.append('errno')
         metas.append(('BSC_pipe', z, [e, 4, 5, 0], 7, [], []))
         kinds.append('errno')
+    # error words that are an errno on NO host (beyond 32 bits, low half equal to an errno number): no host table is consulted
+    # for them, so nothing changes between hosts (this kind is not part of the known finding F17)
+    for e in (11, 35, 45, 102):
+        for hi in (2 ** 32, 2 ** 33 + 2 ** 32, 2 ** 63):
+            metas.append(('BSC_read', [3, 0x1000, 16, 0], [hi + e, 7, 0, 0], 7, [], []))
+            kinds.append('error-word-beyond-32-bits')
     for s in range(0, 33 if ctx.quick() else 65):
         metas.append(('BSC_sigaction', [s, 0x10, 0x20, 0], z, 7, [], []))
         kinds.append('signal')
@@ -204,7 +210,10 @@ def run(ctx, model_ok):
     # static: the library does not consult the platform, the environment, the clock or the Unicode database of the interpreter
     # (text classification methods change with the Python release) - a finite list of such facilities must not appear in it
     import ast as _ast
+    import re as _re
+    import json as _json
     lint = []
+    host_paths = set()
     DENY_ATTR = {('os', 'environ'), ('os', 'getenv'), ('os', 'name'), ('os', 'sep'), ('os', 'linesep'), ('os', 'getcwd'), ('os', 'getlogin'),
                  ('os', 'get_terminal_size'), ('os', 'fsdecode'), ('os', 'fsencode'), ('sys', 'platform'), ('sys', 'byteorder'), ('sys', 'maxsize'),
                  ('sys', 'version_info'), ('sys', 'getdefaultencoding'), ('sys', 'getfilesystemencoding'), ('sys', 'stdout'), ('time', 'time'),
@@ -227,6 +236,11 @@ def run(ctx, model_ok):
                     lint.append((os.path.relpath(path, base), node.lineno, f'{node.value.id}.{node.attr}'))
                 elif isinstance(node, _ast.Attribute) and node.attr in DENY_METH and isinstance(node.ctx, _ast.Load):
                     lint.append((os.path.relpath(path, base), node.lineno, f'.{node.attr}()'))
+                elif isinstance(node, _ast.Constant) and isinstance(node.value, str) and _re.match(
+                        r'^(~|/(usr|etc|System|Library|var|private|opt|tmp|home|Users|bin|sbin|proc|dev|Applications|Volumes)(/|$))', node.value) \
+                        and '\n' not in node.value and len(node.value) < 200:
+                    lint.append((os.path.relpath(path, base), node.lineno, f'path literal {node.value!r}'))
+                    host_paths.add(os.path.expanduser(node.value))
                 elif isinstance(node, (_ast.Import, _ast.ImportFrom)):
                     mods = [a.name.split('.')[0] for a in node.names] if isinstance(node, _ast.Import) else [(node.module or '').split('.')[0]]
                     for m in mods:
@@ -241,6 +255,22 @@ def run(ctx, model_ok):
                                                  'parameter (c18_only_through_tables no longer describes the code)', 'uses': new_uses}))
     stubs = os.path.join(os.path.dirname(os.path.dirname(os.path.abspath(__file__))), 'harness', 'stubs')
     la = vlib.run_impl('run_api.py', {'cases': lreqs})['results']
+    if host_paths:
+        # the files of the host: every absolute path the source names exists on a second 'host' (as a text file holding a valid
+        # code table); the lines must not change
+        lh = vlib.run_impl('run_api.py', {'cases': lreqs}, env_extra={'VERIF_HOST_FILES': _json.dumps(sorted(host_paths))})['results']
+        ctx.evaluations += len(lreqs)
+        for rq, a, b in zip(lreqs, la, lh):
+            ctx.count('host-files')
+            for ca, cb in zip(a, b):
+                if ca['items'] != cb['items'] or ca['err'] != cb['err']:
+                    j = next((k for k in range(min(len(ca['items']), len(cb['items']))) if ca['items'][k] != cb['items'][k]), 0)
+                    ctx.failing.append({'input': {'kind': 'host-files', 'file': rq['file'], 'cfg': rq['cfg'], 'call': ca['call'],
+                                                  'paths_that_exist_on_the_second_host': sorted(host_paths)},
+                                        'expected': {'on this host': ca['items'][j:j + 1] or ca['err']},
+                                        'actual': {'on a host that has these files': cb['items'][j:j + 1] or cb['err']},
+                                        'why': 'the formatted lines change with files of the host'})
+                    break
     lb = vlib.run_impl('run_api.py', {'cases': lreqs}, env_extra={'PYTHONPATH': '/repo:' + stubs})['results']
     ctx.evaluations += 2 * len(lreqs)
     for rq, a, b in zip(lreqs, la, lb):
